@@ -367,6 +367,8 @@ def run(ctx):
     WS.prove_legacy_write_skeleton(ctx)
     WS.prove_sami_write_skeleton(ctx)
     WS.prove_plain_write_skeleton(ctx)        # (SRT / MicroDVD write every language, in the order of the set)
+    import props.C01_read as RS
+    RS.prove_sami_read_skeleton(ctx)          # (every declared language translated once, in order, stored under its own code)
     P("sami.SAMIParser._find_lang", sami_find_lang, functions=[SAMIParser._find_lang])
     # the merge of concurrent captions (legacy / single-position DFXP writers) works language by language: a language
     # without captions is left alone and receives nothing from its neighbours (contract shared with C19)
